@@ -250,4 +250,6 @@ def gen_long_history(rng):
     ops.append({"op": "dequeue", "now": now, "route": "", "target": "", "batch": 5, "ttl": SEC})
     ops.append({"op": "lease", "now": now, "kind": "ack", "dur": 0, "reason": "", "lease": {"ref": [k, 0]}})
     ops.append({"op": "stats", "now": now})
+    for o in ops[-9:]:
+        o["snap"] = True        # dense snapshots over the tail, so the monitors can be evaluated on it
     return {"cfg": cfg, "ops": ops, "snap_every": 500}
